@@ -645,7 +645,27 @@ def r9b_mode_bits(r, facts):
         n += 1
         r.inst('Permissions::%s tests %s' % (name, bit), f.where())
         r.require(ok, 'permission:%s' % name, 'Permissions::%s is not `mode & %s != 0` (%#o): %s' % (name, bit, hv[bit], [str(e)[:100] for e in es]), f.where())
-    r.floor(16)
+    # statx request mask: MetadataInterest constants
+    sx = {}
+    for m in re.finditer(r'^#define\s+(STATX_\w+)\s+(0x[0-9a-fA-F]+)U?\b', open(STAT_H).read(), flags=re.M):
+        sx[m.group(1)] = int(m.group(2), 16)
+    table = {'TYPE': 'STATX_TYPE', 'MODE': 'STATX_MODE', 'ACCESSED_TIME': 'STATX_ATIME', 'MODIFIED_TIME': 'STATX_MTIME', 'SIZE': 'STATX_SIZE',
+             'BLOCKS': 'STATX_BLOCKS', 'CREATED_TIME': 'STATX_BTIME'}
+    k = 0
+    for path, c in sorted(facts.consts.items()):
+        m = re.match(r'^fs::MetadataInterest::([A-Z_]+)$', path)
+        if not m or m.group(1) == 'ALL_VALUES':
+            continue
+        where = '%s:%s' % (c['span']['file'], c['span']['line']) if c.get('span') else ''
+        row = table.get(m.group(1))
+        if not r.require(row is not None, 'statx-interest:%s' % m.group(1), 'MetadataInterest::%s has no row in the statx mask table' % m.group(1), where):
+            continue
+        got = int(c['val']) if 'val' in c else None
+        k += 1
+        r.inst('MetadataInterest::%s = %s (%s = %#x)' % (m.group(1), got, row, sx.get(row, -1)), where)
+        r.require(got == sx.get(row), 'statx-interest:%s' % m.group(1), 'MetadataInterest::%s requests statx mask %s but %s is %#x' % (m.group(1), got, row, sx.get(row, -1)), where)
+    r.require(k >= len(table), 'statx-interest-table', 'only %d of %d MetadataInterest constants found' % (k, len(table)))
+    r.floor(23)
 
 
 def check(ctx):
